@@ -356,6 +356,45 @@ fn handler(n: usize, static_i: u8, bodies: &[(Euler, P3, P3)], with_initial: boo
         ensure!((got * means[i] - (rcd + Vector3::new(xi[0], xi[1], xi[2]))).norm() <= 1e-9 * lever, "C08/handler/centre_motion", "body {i}: transform*rc is not initial*rc + translation parameters");
         ensure!(h.params[i].x().as_slice() == xi, "C08/handler/body_params", "body {i} holds parameters {:?}, expected {:?}", h.params[i].x().as_slice(), xi);
     }
+    // history of updates on the same handler: the blocks are handed on from body to body, zeroed, and restored, so that a
+    // body's new six numbers coincide with what it, or its neighbour, held before; after every update each body must be
+    // where a stand-alone parameter object with the same six numbers puts it
+    {
+        let nb = n - 1;
+        let block = |k: usize| -> Vec<f64> { x[k * 6..k * 6 + 6].to_vec() };
+        let mut history: Vec<Vec<f64>> = vec![];
+        // (a) every block takes the previous block's values, the first becomes zero
+        let mut a = vec![0.0; nb * 6];
+        for k in 1..nb {
+            a[k * 6..k * 6 + 6].copy_from_slice(&block(k - 1));
+        }
+        history.push(a);
+        // (b) all zero except the last block
+        let mut b = vec![0.0; nb * 6];
+        b[(nb - 1) * 6..].copy_from_slice(&block(nb - 1));
+        history.push(b);
+        // (c) all zero, (d) the original vector again
+        history.push(vec![0.0; nb * 6]);
+        history.push(x[..nb * 6].to_vec());
+        for (step, xv) in history.iter().enumerate() {
+            h.set_param(&DVector::from_vec(xv.clone()));
+            for i in 0..n {
+                if i == si {
+                    continue;
+                }
+                let k = h.p_index(i);
+                let xi = &xv[k * 6..k * 6 + 6];
+                let mut alone = RcParams3::from_initial(&initial[i], &means[i]);
+                alone.set(&Vector6::new(xi[0], xi[1], xi[2], xi[3], xi[4], xi[5]));
+                let expect = *alone.transform();
+                let got = h.get_transform(i);
+                let lever = 1.0 + means[i].coords.norm() + (initial[i] * means[i]).coords.norm();
+                ensure!(near(&got, &expect, 1e-9, 1e-9 * lever), "C08/handler/history/stale_body", "after update {} of a history, body {i} is not where its six parameters {:?} put it (rotation difference {:e}, translation difference {:e})", step + 2, xi, rot_diff(&got.rotation, &expect.rotation), (got.translation.vector - expect.translation.vector).norm());
+                ensure!(h.params[i].x().as_slice() == xi, "C08/handler/history/body_params", "after update {} body {i} holds {:?}, expected {:?}", step + 2, h.params[i].x().as_slice(), xi);
+            }
+        }
+        cx.label("handler_history");
+    }
     // relative transform
     for a in 0..n {
         for b in 0..n {
